@@ -40,9 +40,10 @@ Resolve(sym, n, n2) ==
     [] sym = "mAll" -> MaskI([i \in 1..n |-> 1], <<n>>)
     [] sym = "mNone" -> MaskI([i \in 1..n |-> 0], <<n>>)
     [] sym = "mFirst" -> MaskI([i \in 1..n |-> IF i = 1 THEN 1 ELSE 0], <<n>>)
+    [] sym = "m2dAll" -> MaskI([f \in 1..(n * n2) |-> 1], <<n, n2>>)     \* keeps everything, but still flattens the two axes
     [] sym = "m2d" -> MaskI([f \in 1..(n * n2) |-> IF ((((f - 1) \div n2) + ((f - 1) % n2)) % 2) = 0 THEN 1 ELSE 0], <<n, n2>>)
 
-SymConsumes(sym) == IF sym = "ell" THEN 0 ELSE IF sym = "m2d" THEN 2 ELSE 1
+SymConsumes(sym) == IF sym = "ell" THEN 0 ELSE IF sym \in {"m2d", "m2dAll"} THEN 2 ELSE 1
 
 \* resolve the symbolic expression for a leaf shape (axes addressed from the left; after an ellipsis
 \* from the right)
